@@ -282,9 +282,14 @@ def _question_mark_shape(caller, call_block):
         return None
     bl = c1["d"]["l"]
     b2 = blocks[c1["t"]]
-    if b2["t"]["k"] != "switch" or len(b2["s"]) != 1:
+    if b2["t"]["k"] != "switch" or len(b2["s"]) < 1:
         return None
-    st = b2["s"][0]
+    # drop-flag updates (`_n = const bool` on an unnamed local) may precede the discriminant read; they carry no meaning here
+    for st0 in b2["s"][:-1]:
+        k0 = (st0.get("rv") or {}).get("use", {}).get("k") if st0["k"] == "=" else None
+        if not (isinstance(k0, dict) and k0.get("ty") == "bool" and not st0["p"].get("p") and not caller["locals"][st0["p"]["l"]].get("n")):
+            return None
+    st = b2["s"][-1]
     if st["k"] != "=" or "discr" not in st["rv"] or st["rv"]["discr"]["l"] != bl:
         return None
     tgt = {str(v): b for v, b in b2["t"]["ts"]}
@@ -489,6 +494,57 @@ def inline_call(caller, call_block, callee):
     blocks.extend(newblocks)
 
 
+def fold_constant_switches(rec):
+    """A helper spliced in at a call with a literal argument (`update(.., true)`) branches on that literal: a switch whose
+    discriminant is a single-assignment copy chain from a constant becomes a goto. Returns the number of folded switches."""
+    blocks = rec["blocks"]
+    defs = {}
+    for bb in blocks:
+        if bb.get("dead"):
+            continue
+        for st in bb["s"]:
+            if st["k"] == "=" :
+                defs.setdefault(st["p"]["l"], []).append(st if not st["p"].get("p") else None)
+        t = bb["t"]
+        if t["k"] == "call":
+            defs.setdefault(t["d"]["l"], []).append(None)
+    # locals whose address is taken may be written through the reference
+    addr = set()
+    for bb in blocks:
+        for st in bb["s"]:
+            rv = st.get("rv") or {}
+            for k in ("ref", "raw"):
+                if k in rv and isinstance(rv[k], dict) and not rv[k].get("p"):
+                    addr.add(rv[k]["l"])
+
+    def value(l, depth=0):
+        if l <= rec["argc"] or l in addr or depth > 6:
+            return None
+        ds = defs.get(l, [])
+        if len(ds) != 1 or ds[0] is None:
+            return None
+        u = ds[0]["rv"].get("use")
+        if not isinstance(u, dict):
+            return None
+        if "k" in u and isinstance(u["k"], dict) and "v" in u["k"] and u["k"].get("ty") in ("bool", "u8", "u16", "u32", "u64", "usize", "i32", "isize"):
+            return str(u["k"]["v"])
+        sl = _operand_local(u)
+        return value(sl, depth + 1) if sl is not None else None
+    n = 0
+    for bb in blocks:
+        t = bb["t"]
+        if t["k"] != "switch" or bb.get("dead"):
+            continue
+        dl = _operand_local(t["d"])
+        v = value(dl) if dl is not None else None
+        if v is None:
+            continue
+        tg = next((x for val, x in t["ts"] if str(val) == v), t["o"])
+        bb["t"] = {"k": "goto", "t": tg}
+        n += 1
+    return n
+
+
 def _rename_local(bb, old, new):
     def pl(p):
         if p["l"] == old:
@@ -559,9 +615,29 @@ ALWAYS_INLINE = {
         "pinocchio::ported::manager_tick_array_manager::pino_increase_tick_array_size",
         "pinocchio::ported::manager_tick_array_manager::pino_decrease_tick_array_size",
         "pinocchio::utils::account_load::check_owner_program",
+        "state::oracle::Oracle::update_adaptive_fee_variables",
+        "state::oracle::OracleAccessor::<'info>::load_mut",
+        "state::dynamic_tick_array::DynamicTickArrayLoader::update_tick_bitmap",
+        "pinocchio::state::whirlpool::tick_array::dynamic_tick_array::MemoryMappedDynamicTickArray::update_tick_bitmap",
         "util::sparse_swap::maybe_load_tick_array",
+        "pinocchio::state::whirlpool::position::MemoryMappedPosition::reset_reward_growth_checkpoints",
         "util::swap_utils::perform_swap",
         "util::v2::swap_utils::perform_swap_v2",
+    ],
+    "orca_whirlpools_core": [
+        "quote::swap::try_get_next_sqrt_price",
+    ],
+}
+
+
+# small selectors whose own body is decided by a rule (so they stay in the function list) and whose callers are read with the
+# selection spelled out: `pool.output_token_mint(a_to_b)` and `if a_to_b { pool.token_mint_b } else { pool.token_mint_a }` are one text
+INLINE_AND_KEEP = {
+    "whirlpool": [
+        "state::whirlpool::Whirlpool::input_token_mint",
+        "state::whirlpool::Whirlpool::output_token_mint",
+        "state::whirlpool::Whirlpool::input_token_vault",
+        "state::whirlpool::Whirlpool::output_token_vault",
     ],
 }
 
@@ -573,7 +649,8 @@ def inline_new_functions(facts, crate):
     if not ref:
         return []
     log = []
-    always = set(ALWAYS_INLINE.get(crate, []))
+    keep = set(INLINE_AND_KEEP.get(crate, []))
+    always = set(ALWAYS_INLINE.get(crate, [])) | keep
     for _round in range(4):
         new = [f for f in facts.fn_list if f.kind == "fn" and (f.path not in ref["fns"] or f.path in always) and not f.expn and f.path not in facts.no_inline]
         if not new:
@@ -624,9 +701,14 @@ def inline_new_functions(facts, crate):
             for f, bi in sites:
                 before = _reachable(f.rec)
                 inline_call(f.rec, bi, g.rec)
+                if fold_constant_switches(f.rec):
+                    before = before | set(range(max(before) + 1, len(f.rec["blocks"])))
                 _neutralise(f.rec, before)
                 f.refresh()
-            facts.remove_fn(g)
+            if g.path in keep:
+                facts.no_inline.add(g.path)
+            else:
+                facts.remove_fn(g)
             if g.path not in always:
                 log.append("inlined new function %s into %s" % (g.path, ", ".join(sorted({f.path for f, _ in sites}))))
             progressed = True
